@@ -201,7 +201,18 @@ fn judge(
         ));
     }
     match (want, &got) {
-        (Verdict::Accept, Ok(true)) => st.label("neg:accepted_by_reference_too"),
+        (Verdict::Accept, Ok(true)) => {
+            // which forged statements are (legitimately) still valid: duplicates, unaddressed cap entries, no-op rows
+            let kind: Vec<&str> = what
+                .split('(')
+                .next()
+                .unwrap_or("")
+                .split(' ')
+                .filter(|w| !w.is_empty() && !w.chars().all(|ch| ch.is_ascii_digit()))
+                .take(6)
+                .collect();
+            st.label(&format!("neg:accepted_by_reference_too:{}", kind.join(" ")))
+        }
         (Verdict::Reject, Ok(false)) => st.label("neg:rejected"),
         (Verdict::Malformed, Ok(false)) => st.label("neg:malformed->Err"),
         (Verdict::Malformed, Err(_)) => st.label("neg:malformed->panic"),
@@ -276,6 +287,9 @@ fn tree_case(max_log: u8) -> BoxedStrategy<TreeCase> {
 }
 
 fn tree_model(c: &TreeCase, st: &mut Stats) -> Result<(), String> {
+    if c.pool.is_empty() || c.picks.is_empty() || c.log_n > 16 {
+        return Ok(()); // hand-edited replay outside the generator's range
+    }
     dispatch!(c.hasher, tree_model_h, c, st)
 }
 
@@ -473,6 +487,9 @@ const THREAD_COUNTS: [usize; 4] = [1, 2, 3, 16];
 const THREAD_REPS: usize = 3;
 
 fn threads(c: &ThreadCase, st: &mut Stats) -> Result<(), String> {
+    if c.pool.is_empty() || c.log_n > 16 {
+        return Ok(());
+    }
     dispatch!(c.hasher, threads_h, c, st)
 }
 
@@ -1003,6 +1020,6 @@ pub fn run(ctx: &mut Ctx) {
     ctx.run_sub("batch_tree", cases, 16, || batch_case(max_log_small), batch_tree);
     let cases = ctx.tier.pick(8_000, 150_000);
     ctx.run_sub("path_compression", cases, 16, || pc_case(if thorough { 10 } else { 8 }), path_compression);
-    let cases = ctx.tier.pick(250, 6_000);
+    let cases = ctx.tier.pick(250, 4_000);
     ctx.run_sub("threads", cases, 8, || thread_case(if thorough { 11 } else { 10 }), threads);
 }
